@@ -116,7 +116,8 @@ class C14(CoordMixin, Prop):
                   ("bbbb", "n:ok", "raise.C0"), ("bbbb", "n:ok", "raise.Cm"), ("bybb", "n:ok", "yes"), ("bbzb", "n:ok", "yes"),
                   ("bbbb", "k1:raise.A0", "raise.V0"), ("bbbb", "n:ok.N", "no"), ("bbbb", "n:ok.N", "raise.V0"),
                   ("bbbb", "n:ok.N", "yes"), ("bbbb", "n:ok.Z", "no"), ("bbbb", "n:ok.F", "raise"), ("bbbb", "n:ok.L", "absent"),
-                  ("bbnb", "n:ok.N", "no")]
+                  ("bbnb", "n:ok.N", "no"), ("bbbb", "n:ok", "raise.SX"), ("bbbb", "n:raise.SX", "yes"),
+                  ("bbbb", "k1:raise.SX", "raise.SX")]
         posts = [None, "ok", "raise.V0"] if tier == "quick" else [None, "ok", "notag", "raise", "raise.V0"]
         holders = ["free", "held-low", "held-high", "held-twice"]
         reqs = [r for k in range(0, L + 1) for r in itertools.product([1, 2], repeat=k)]
